@@ -68,6 +68,17 @@ def check(ctx, rep):
     pd = prog.cls("PollDescriptor")
     for n in ("yield_result", "yield_exception"):
         rs.append((pd.methods[n], pd, "poll descriptor"))
+    # submit() of an executor that runs user code on the caller's thread (the sync executor, and map functions of
+    # an already-finished delegate future): the fault belongs to the returned future, not to the caller of submit
+    for ci in ctx.executor_classes():
+        if not ctx.gate_field(ci):
+            continue
+        for c in ci.mro():
+            if not isinstance(c, ClassInfo):
+                continue
+            for name, m in sorted(c.methods.items()):
+                if (name == "submit" or name.startswith("submit_")) and ci.lookup(name)[1] is m:
+                    rs.append((m, ci, "submit()"))
     rep.count("roots (worker loops, library done-callbacks, cancel())", len(rs), 25)
     sites = {}
     n_user = n_trans = 0
